@@ -36,18 +36,18 @@ func (p *psTopic) Peers(_ context.Context) ([]peer.ID, error) {
 	return members, nil
 }
 
-func (p *psTopic) peersDiff(ctx context.Context) (joining, leaving []peer.ID, err error) {
-	p.muMembers.RLock()
+// peersDiff polls the members of the topic and compares them with reported, the members
+// the calling watcher has been told about so far.
+func (p *psTopic) peersDiff(ctx context.Context, reported []peer.ID) (joining, leaving, all []peer.ID, err error) {
 	oldMembers := map[peer.ID]struct{}{}
 
-	for _, m := range p.members {
+	for _, m := range reported {
 		oldMembers[m] = struct{}{}
 	}
-	p.muMembers.RUnlock()
 
-	all, err := p.ps.api.PubSub().Peers(ctx, options.PubSub.Topic(p.topic))
+	all, err = p.ps.api.PubSub().Peers(ctx, options.PubSub.Topic(p.topic))
 	if err != nil {
-		return nil, nil, err
+		return nil, nil, nil, err
 	}
 
 	for _, m := range all {
@@ -66,19 +66,27 @@ func (p *psTopic) peersDiff(ctx context.Context) (joining, leaving []peer.ID, er
 	p.members = all
 	p.muMembers.Unlock()
 
-	return joining, leaving, nil
+	return joining, leaving, all, nil
 }
 
 func (p *psTopic) WatchPeers(ctx context.Context) (<-chan events.Event, error) {
 	ch := make(chan events.Event, 32)
 	go func() {
 		defer close(ch)
+
+		// every watcher starts from an empty membership: the topic outlives its
+		// watchers (TopicSubscribe hands out the topic it has), and the member list
+		// an earlier watcher left behind says nothing about what this one was told
+		var reported []peer.ID
+
 		for {
-			joining, leaving, err := p.peersDiff(ctx)
+			joining, leaving, all, err := p.peersDiff(ctx, reported)
 			if err != nil {
 				p.ps.logger.Error("", zap.Error(err))
 				return
 			}
+
+			reported = all
 
 			for _, pid := range joining {
 				ch <- pubsub.NewEventPeerJoin(pid, p.Topic())
